@@ -126,6 +126,9 @@ static struct VideoFrame* g_mon_end[2];
 static int64_t g_mon_last_id[2] = { -1, -1 };
 static unsigned g_mon_last_run[2];
 static int g_mon_seen_in_acq[2];
+static int g_nfinished;          // acquisitions that stop/abort has returned from
+static int g_mon_late[2];        // the monitor reader was registered (first acquire_map_read) after an earlier acquisition had finished,
+                                 // and no stop/abort has returned since
 
 static void reporter(int is_error, const char* file, int line, const char* function, const char* msg)
 {
@@ -233,7 +236,9 @@ static void check_devices(const char* when)
 static void do_map(int s)
 {
     struct VideoFrame *beg = 0, *end = 0;
+    int was_unregistered = rt()->video[s].monitor.reader.id == 0;
     enum AcquireStatusCode rc = acquire_map_read(g_rt, (uint32_t)s, &beg, &end);
+    if (was_unregistered && rt()->video[s].monitor.reader.id != 0) g_mon_late[s] = g_nfinished >= 1;
     printf("API map %d -> %s", s, rc == AcquireStatus_Ok ? "ok" : "err");
     if (rc != AcquireStatus_Ok) { printf("\n"); if (!g_mon_beg[s]) oracle("map-read-failed stream=%d", s); return; }
     g_mon_beg[s] = beg; g_mon_end[s] = end;
@@ -278,7 +283,8 @@ static void do_unmap(int s, int nframes)
                 int ok = 1;
                 for (size_t i = 0; i < img; ++i)
                     if (f->data[i] != mock_pixel(cam, run, f->hardware_frame_id, i)) { ok = 0; break; }
-                if (!ok) oracle("monitor-frame-not-from-current-acquisition stream=%d frame=%llu", s, (unsigned long long)f->frame_id);
+                if (!ok) oracle("monitor-frame-not-from-current-acquisition cause=%s stream=%d frame=%llu",
+                                g_mon_late[s] ? "first-map-after-a-finished-acquisition" : "other", s, (unsigned long long)f->frame_id);
             }
             if (g_mon_seen_in_acq[s] && g_mon_last_run[s] == run && (int64_t)f->frame_id != g_mon_last_id[s] + k)
                 oracle("monitor-gap-or-repeat stream=%d last=%lld now=%llu", s, (long long)g_mon_last_id[s], (unsigned long long)f->frame_id);
@@ -322,25 +328,30 @@ static void exec_client(const char* op)
         printf("API configure -> %s valid=%d state=%s\n", rc == AcquireStatus_Ok ? "ok" : "err", (int)rt()->valid_video_streams,
                device_state_as_string(acquire_get_state(g_rt)));
     } else if (!strcmp(op, "start")) {
-        for (int s = 0; s < 2; ++s)
-            if (g_cfg_sto[s] >= 0 && g_cfg_cam[s] >= 0) {
-                g_cam_of_sto[g_cfg_sto[s]] = g_cfg_cam[s];
-                g_camrun_of_sto[g_cfg_sto[s]] = mock_dev(g_cfg_cam[s])->run + 1;
-                g_avg_of_sto[g_cfg_sto[s]] = g_cfg_avg[s];
-            }
+        // expected camera run per storage device: unchanged when the call is refused because an acquisition is running
+        int was_running = acquire_get_state(g_rt) == DeviceState_Running;
+        if (!was_running)
+            for (int s = 0; s < 2; ++s)
+                if (g_cfg_sto[s] >= 0 && g_cfg_cam[s] >= 0) {
+                    g_cam_of_sto[g_cfg_sto[s]] = g_cfg_cam[s];
+                    g_camrun_of_sto[g_cfg_sto[s]] = mock_dev(g_cfg_cam[s])->run + 1;
+                    g_avg_of_sto[g_cfg_sto[s]] = g_cfg_avg[s];
+                }
         enum AcquireStatusCode rc = acquire_start(g_rt);
         if (rc == AcquireStatus_Ok) g_acq_open = 1;
         printf("API start -> %s\n", rc == AcquireStatus_Ok ? "ok" : "err");
     } else if (!strcmp(op, "stop")) {
         enum AcquireStatusCode rc = acquire_stop(g_rt);
         printf("API stop -> %s\n", rc == AcquireStatus_Ok ? "ok" : "err");
-        if (g_acq_open) check_acquisition("stop");
+        if (g_acq_open) { check_acquisition("stop"); ++g_nfinished; }
+        g_mon_late[0] = g_mon_late[1] = 0;
         g_acq_open = 0;
         check_devices("stop");
     } else if (!strcmp(op, "abort")) {
         enum AcquireStatusCode rc = acquire_abort(g_rt);
         printf("API abort -> %s\n", rc == AcquireStatus_Ok ? "ok" : "err");
-        if (g_acq_open) check_acquisition("abort");
+        if (g_acq_open) { check_acquisition("abort"); ++g_nfinished; }
+        g_mon_late[0] = g_mon_late[1] = 0;
         g_acq_open = 0;
         check_devices("abort");
     } else if (!strncmp(op, "trigger ", 8)) {
@@ -488,7 +499,23 @@ static void on_terminal(void* ctx, int code)
                    v->filter.in.head, v->filter.in.high, v->filter.in.cycle, v->filter.in.is_accepting_writes);
         }
     }
-    printf("ORACLE runtime-%s-never-returns\n", what);
+    // why: a registered monitor reader that lags behind the sink's reader while a source is still alive
+    // (the client, blocked in acquire_stop, cannot consume) -- or something else
+    const char* cause = "other";
+    if (g_rt) {
+        struct runtime* r = rt();
+        for (int s = 0; s < 2; ++s) {
+            struct video_s* v = &r->video[s];
+            unsigned m = v->monitor.reader.id, k = v->sink.reader.id;
+            if (!((r->valid_video_streams >> s) & 1) || !m || !k || m > 8 || k > 8) continue;
+            const struct channel* c = &v->sink.in;
+            int mon_lags = c->holds.cycles[m - 1] < c->holds.cycles[k - 1] ||
+                           (c->holds.cycles[m - 1] == c->holds.cycles[k - 1] && c->holds.pos[m - 1] < c->holds.pos[k - 1]) ||
+                           (v->monitor.reader.state == ChannelState_Mapped);
+            if (mon_lags && (v->source.is_running || v->filter.is_running) && c->is_accepting_writes) cause = "stalled-monitor";
+        }
+    }
+    printf("ORACLE runtime-%s-never-returns cause=%s\n", what, cause);
     printf("END %s\n", what);
     detsched_print_schedule(stdout);
     fflush(stdout);
